@@ -39,7 +39,7 @@ CHECKS = {
                 note="bounds 1..3 argv words quick / ..4 thorough, 24 grammars (incl. commands under optional().catch(), repeated and adjacent commands with their own version, a choice below depth 1, duplicate command names); for adjacent commands the expected level follows the block rule (the flag belongs to the command iff it lies in the run of items the command accepts); help together with version inside an adjacent command is assumed away; the ambiguity exception of run_inner is outside the token layer; one known finding (see known_findings.json); three defects found and fixed (188e172, 6f5c85c, 1e94030)",
                 tech=MIRSYM + ", outcome-class obligations", ref="DESIGN.md 4/C10"),
     "C11": dict(text="in-process clause only: OptionParser::run executed from MIR with current_args / process::exit / print macros as recording models: the program body is reached iff the run yields a value (and nothing is printed), otherwise exactly one print to stdout with status 0 (help/version/completion) or to stderr with status 1 (failure); ParseFailure::exit_code on all variants; Args::current_args executed from MIR on a symbolic argv[0] path: the application name is its file name. One concrete argv per path is additionally pushed through a REAL process running run() (supporting evidence)",
-                note="the clause 'a real process behaves like run_inner for every OS argv (non-UTF-8 through execve)' is outside symbolic execution and is NOT claimed beyond the per-path real-process validation; message non-emptiness is not decided (rendering cut); bounds <=3 argv words quick / <=4 thorough, 4 grammars",
+                note="the clause 'a real process behaves like run_inner for every OS argv (non-UTF-8 through execve)' is outside symbolic execution and is NOT claimed beyond the per-path real-process validation; message non-emptiness is not decided (rendering cut); print_message is related to run_inner's prediction by a kernel (same `full` flag and width reach render_console as in unwrap_stdout / unwrap_stderr, stream per class, completion text verbatim); bounds <=3 argv words quick / <=4 thorough, 4 grammars",
                 tech=MIRSYM + ", effect-recording models", ref="DESIGN.md 4/C11"),
     "C12": dict(text="the Meta tree is the symbolic input: bounded trees whose node kinds (And/Or/Optional/Required/Many/Adjacent/Subsection/Suffix/CustomUsage/Skip) and leaf kinds (flag/argument/positional/command, with or without help) are chosen through the solver; append_meta, grouping, de-duplication, write_help_item*, the Doc builders and render_console are executed from MIR and the rendered text is checked: every visible item listed exactly once with name, metavariable and help, nothing hidden / no help-less positional, CustomUsage changes nothing; per primitive the shown name is the first declared one and is accepted; descr/usage/header/items/footer order on real grammars",
                 note="bounds: depth <=2, <=2 inner nodes quick (3 thorough), unique leaf names plus `dupor` nodes (two items with the same name and help in two branches: flag vs argument, two metavariables, identical twice), Strict wrappers around positionals; usage-line normalisation not asserted; BTreeSet and Debug keys modelled injectively",
@@ -48,7 +48,7 @@ CHECKS = {
                 note="bounds: 8 templates, symbolic text <=4 bytes quick / <=5 thorough over {space,newline,a,b,é}, widths 1..=16 and 100 for content, 40..=48 for the width clause (concrete fillers: short words, and one 52-column unbreakable word among short ones); widths 49..=300, longer texts and colours are outside",
                 tech=MIRSYM + " over symbolic bytes, provenance obligations", ref="DESIGN.md 4/C13"),
     "C14": dict(text="run_subparser executed from the full-feature MIR in completion mode on 0-2 symbolic words followed by a concrete word being typed; Complete::complete, arg_matches/cmd_matches, Doc::to_completion and render_test run on real text: the outcome is always Completion; every candidate with a replacement is a visible name (preferred spelling) of the entered or an enclosing level that matches the typed word, a subcommand of the active level extending it, or the `--` hint - never a hidden name or one of a command not entered; after clean prefixes every visible not-yet-given name extending `--prefix` is offered. One concrete argv per path is validated against the native completion text",
-                note="the typed word ranges over 21 fixed words plus words derived from each grammar (prefixes of command names / aliases / long names, also followed by a foreign letter; exact shorts), the prefix is symbolic (<=2 words quick / <=3 thorough); 7 grammars incl. a flag-or-positional choice at top level and inside a command; no completer values, adjacent groups or non-UTF-8 last words in the corpus; one known finding (`name=` for an unavailable item)",
+                note="the typed word ranges over 21 fixed words plus words derived from each grammar (prefixes of command names / aliases / long names, also followed by a foreign letter; exact shorts), the prefix is symbolic (<=2 words quick / <=3 thorough); 9 grammars incl. a flag-or-positional choice at top level and inside a command, an argument with a user completer, an adjacent option-struct with a completer; no or non-UTF-8 last words in the corpus; one known finding (`name=` for an unavailable item)",
                 tech=MIRSYM + ", token layer prefix + concrete typed word", ref="DESIGN.md 4/C14"),
     "C15": dict(text="the single-quote wrapper `Shell` executed from MIR (core::fmt interpreted) on every valid UTF-8 string up to the bound: the output lexes under POSIX rules as exactly one word with the input as value; render_zsh/bash/fish/simple executed from MIR on candidate and completer lists whose user-originated strings are tracked atoms: no atom reaches a zsh/bash script unquoted, every line is a complete directive, every candidate / requested completer appears exactly once",
                 note="bounds: strings <=6 bytes quick / <=8 thorough; 0-2 candidates, 0-1 completers plus five pairs incl. same-kind pairs with different masks (thorough: all pairs); reference lexers in props/C15.py; sourcing in a real shell not attempted; three defects found and fixed (7d9d288, 7f18a65, 640d5de)",
@@ -66,7 +66,7 @@ CHECKS = {
                 note="bounds: <=3 argv words quick / <=4 thorough on 7 grammars (incl. nested adjacent groups); lemma: ParseAdjacent::eval from every pre-state of <=4 items quick / <=5 thorough (any subset consumed, any scope) around a solver-chosen deterministic inner parser - Ok => consumed items are one contiguous run inside the scope, scope restored; lines the documentation does not fix (positional before a block) only carry the soundness obligation; one defect found and fixed (de99059)",
                 tech=MIRSYM + ", provenance + block-decomposition oracle", ref="DESIGN.md 4/C19"),
     "C20": dict(text="relational across two MIR dumps ({} and {autocomplete,docgen,batteries}): the second build is explored under each path condition of the first; Z3 shows equal class, value, ledger and Message",
-                note="bounds <=2 argv words quick / <=3 thorough, 19 grammars; run_inner prologue (short-name table, State::construct on argv bytes, ambiguity report) compared on symbolic bytes over 5-letter alphabets, <=2 words / 6 bytes quick (3 / 8 thorough); text rendering cut; colour features and derive not executed; one defect found and fixed (86df1ed)",
+                note="bounds <=2 argv words quick / <=3 thorough, 19 grammars; run_inner prologue (short-name table, State::construct on argv bytes, ambiguity report) compared on symbolic bytes over 5-letter alphabets, <=2 words / 6 bytes quick (3 / 8 thorough); help *text*: Doc::render_console (Splitter included) compared across the builds on a help item whose body is a structural prefix + <=3 (4) symbolic bytes; error text rendering cut; colour features and derive not executed; one defect found and fixed (86df1ed); one known finding (fenced code blocks in help text are recognised with docgen only)",
                 tech=MIRSYM + ", relational query across two builds", ref="DESIGN.md 4/C20"),
 }
 
